@@ -119,3 +119,14 @@ def gen_C02(tier, rng):
             yield (f"hctx.{alg} {_render(rng, seq)};d", f"{alg}.random-history")
         # malformed / refused: the protocol's own error path (both executors must refuse alike)
         yield (f"hctx.{alg} q", f"{alg}.malformed")
+
+
+# ----------------------------------------------------------------------------- C20 (sha1 / ripemd160 part)
+
+def gen_C20(tier, rng):
+    """refusal matrix of the legacy `Digest` wrappers (`computed` assert, exact-length `result` buffer); the `hashing`
+    contexts have no refusing call: every reuse pattern is answered"""
+    from . import _refusal
+    for alg in ALGS:
+        yield from _refusal.digest_object_rows(alg, 20, B, rng)
+        yield from _refusal.context_reuse_rows(alg, B, rng)
